@@ -121,6 +121,26 @@ def s_doc():
     return st.builds(lambda d: {"kind": "doc", "doc": d}, GM.documents())
 
 
+@st.composite
+def s_big_chart(draw):
+    """a chart whose note data is longer than 64 KiB (marathon charts are), with or without an escaped backslash /
+    colon / comment opener in a header field or inside the note data - size-dependent writer paths see these"""
+    n = draw(st.sampled_from([65536, 65536, 65537, 65540, 70000, 98304, 131073])) + draw(st.integers(-8, 8))
+    tok = draw(st.sampled_from(["", "\\\\", "\\\\", "\\:", "\\//", "\\;"]))
+    pos = draw(st.sampled_from([0, 100, 4095, 32767, 65535, 65536]))
+    notes = ("0000\n" * (n // 5 + 1))[:n]
+    if tok and draw(st.booleans()):
+        pos = min(pos, len(notes))
+        notes = notes[:pos] + tok + notes[pos:]
+    desc = draw(st.sampled_from(["plain", "back\\\\slash", "shrug \\\\_(o_o)_/", "a\\:b", "x"]))
+    if draw(st.booleans()):
+        text = f"#TITLE:t;\n#NOTES:\n     dance-single:\n     {desc}:\n     Hard:\n     9:\n     0,0:\n{notes}\n;\n"
+    else:
+        nk = draw(st.sampled_from(["NOTES", "NOTES", "NOTES2"]))
+        text = f"#VERSION:0.83;\n#TITLE:t;\n#NOTEDATA:;\n#STEPSTYPE:dance-single;\n#DESCRIPTION:{desc};\n#{nk}:\n{notes}\n;\n"
+    return {"kind": "raw", "text": text}
+
+
 def fixed_cases():
     return [{"kind": "corpus_mut", "path": rel, "head": None, "ops": []} for rel in GM.corpus_texts()]
 
@@ -134,4 +154,5 @@ def parts(tier):
         {"name": "corpus", "kind": "fixed", "cases": fixed_cases},
         {"name": "documents", "kind": "hypothesis", "strategy": s_doc, "examples": 10000 if q else 16 * 30000},
         {"name": "corpus-mutations", "kind": "hypothesis", "strategy": GM.corpus_mutations, "examples": 1500 if q else 16 * 4000},
+        {"name": "charts-over-64KiB", "kind": "hypothesis", "strategy": s_big_chart, "examples": 96 if q else 16 * 60},
     ]
